@@ -352,8 +352,19 @@ class Gen(kgen.Gen):
     def hex_malformed(self):
         s = self.st(); r = self.r
         lv, le, lf, lc = s.live_v(), s.live_e(), s.live_f(), s.live_c()
-        c = r.below(10)
-        if c == 0 and lv: self.do("@HAddCellV %d %s" % (r.below(2), " ".join(str(r.pick(lv)) for _ in range(r.pick([0, 4, 7, 9, 8, 8])))))
+        c = r.below(11)
+        if c == 10:
+            # a cube on fresh vertices with one vertex named twice (a cell pinched in a vertex; the antipodal pair keeps the
+            # surface closed), mostly WITH topology check: must be rejected before any face is created (fix "checked hex
+            # add_cell must reject cells without eight distinct vertices")
+            base = s.nv
+            self.add_vertices(8)
+            v = [base + i for i in range(8)]
+            i = r.below(8)
+            j = [6, 7, 4, 5, 2, 3, 0, 1][i] if r.chance(2, 3) else (i + 1 + r.below(7)) % 8
+            v[j] = v[i]
+            self.hex8(v, 1 if r.chance(3, 4) else 0)
+        elif c == 0 and lv: self.do("@HAddCellV %d %s" % (r.below(2), " ".join(str(r.pick(lv)) for _ in range(r.pick([0, 4, 7, 9, 8, 8])))))
         elif c == 1 and lv: self.do("@AddFV " + " ".join(str(r.pick(lv)) for _ in range(r.pick([1, 2, 3, 5]))))
         elif c == 2 and le: self.do("@AddF %d %s" % (r.below(2), " ".join(str(2 * r.pick(le) + r.below(2)) for _ in range(r.pick([0, 3, 5, 4])))))
         elif c == 3 and lf: self.do("@AddC %d %s" % (r.below(2), " ".join(str(2 * r.pick(lf) + r.below(2)) for _ in range(r.pick([0, 4, 5, 7, 6, 6])))))
